@@ -238,10 +238,26 @@ pub enum LineKind {
     Other,
 }
 
+/// Positions of constructs in the rendered text (byte offsets), for the damage operators.
+#[derive(Clone, Debug, PartialEq, Eq)]
+pub enum Mark {
+    /// a quoted scalar including its quotes; style 1 single / 2 double; `block_key`: it is the
+    /// implicit key of a block mapping entry
+    Quoted { start: usize, end: usize, style: u8, block_key: bool },
+    /// an outermost flow collection including its brackets
+    Flow { start: usize, end: usize },
+    /// the scalar text of a plain implicit key of a block mapping entry
+    PlainBlockKey { start: usize, end: usize },
+}
+
 pub struct R<'a> {
     pub out: String,
     pub ch: &'a mut Ch,
     oneline: u32,
+    pub marks: Vec<Mark>,
+    in_block_key: bool,
+    /// the first block entry line of each collection (not a candidate for re-indentation)
+    pub first_lines: Vec<usize>,
     /// (byte offset of line start, kind, indentation of the enclosing block collection)
     pub lines: Vec<(usize, LineKind, isize)>,
     /// open block indentation levels at each BlockEntry line (for the dedent operator)
@@ -252,7 +268,7 @@ pub struct R<'a> {
 
 impl<'a> R<'a> {
     pub fn new(ch: &'a mut Ch) -> Self {
-        R { out: String::new(), ch, oneline: 0, lines: vec![], levels: vec![], open: vec![], flow_parent: vec![] }
+        R { out: String::new(), ch, oneline: 0, marks: vec![], in_block_key: false, first_lines: vec![], lines: vec![], levels: vec![], open: vec![], flow_parent: vec![] }
     }
     fn col(&self) -> usize {
         self.out.rsplit('\n').next().unwrap().chars().count()
@@ -266,6 +282,10 @@ impl<'a> R<'a> {
         }
         self.lines.push((start, kind, parent));
         self.levels.push(self.open.clone());
+    }
+    fn note_first(&mut self) {
+        let start = self.out.rfind('\n').map_or(0, |i| i + 1);
+        self.first_lines.push(start);
     }
     fn eol(&mut self) {
         match self.ch.pick(3) {
@@ -316,6 +336,18 @@ impl<'a> R<'a> {
         }
     }
     fn scalar_text(&mut self, s: &str, st: u8) {
+        let start = self.out.len();
+        self.scalar_text_inner(s, st);
+        let end = self.out.len();
+        if st == 0 {
+            if self.in_block_key {
+                self.marks.push(Mark::PlainBlockKey { start, end });
+            }
+        } else {
+            self.marks.push(Mark::Quoted { start, end, style: st, block_key: self.in_block_key });
+        }
+    }
+    fn scalar_text_inner(&mut self, s: &str, st: u8) {
         match st {
             0 => self.out.push_str(s),
             1 => {
@@ -345,6 +377,8 @@ impl<'a> R<'a> {
             N::Sc(s, st) => self.scalar_text(s, *st),
             N::Alias(i) => self.out.push_str(&format!("*a{i}")),
             N::Seq(k, _) => {
+                let fstart = self.out.len();
+                let outer = self.flow_parent.is_empty();
                 self.out.push('[');
                 self.flow_parent.push(n);
                 self.fsep(n, true, false);
@@ -363,8 +397,13 @@ impl<'a> R<'a> {
                 self.fsep(n, true, false);
                 self.out.push(']');
                 self.flow_parent.pop();
+                if outer {
+                    self.marks.push(Mark::Flow { start: fstart, end: self.out.len() });
+                }
             }
             N::Map(p, _) => {
+                let fstart = self.out.len();
+                let outer = self.flow_parent.is_empty();
                 self.out.push('{');
                 self.flow_parent.push(n);
                 self.fsep(n, true, false);
@@ -383,6 +422,9 @@ impl<'a> R<'a> {
                 self.fsep(n, true, false);
                 self.out.push('}');
                 self.flow_parent.pop();
+                if outer {
+                    self.marks.push(Mark::Flow { start: fstart, end: self.out.len() });
+                }
             }
         }
     }
@@ -561,6 +603,9 @@ impl<'a> R<'a> {
                     }
                     self.out.push('-');
                     self.mark_line(LineKind::BlockEntry, m);
+                    if i == 0 {
+                        self.note_first();
+                    }
                     if self.ch.flag() && !c.bare_null() && !Self::is_block_coll(c) {
                         self.out.push(' '); // two spaces after the indicator
                     }
@@ -579,7 +624,9 @@ impl<'a> R<'a> {
                     if simple_key && self.ch.pick(2) == 0 {
                         if !key_empty {
                             self.oneline += 1;
+                            self.in_block_key = matches!(x.n, N::Sc(..));
                             self.flow(x, m);
+                            self.in_block_key = false;
                             self.oneline -= 1;
                             if matches!(x.n, N::Alias(_) | N::Null) {
                                 self.out.push(' ');
@@ -589,10 +636,16 @@ impl<'a> R<'a> {
                         }
                         self.out.push(':');
                         self.mark_line(LineKind::BlockEntry, m);
+                        if i == 0 {
+                            self.note_first();
+                        }
                         self.block_value(y, m, false, true);
                     } else {
                         self.out.push('?');
                         self.mark_line(LineKind::BlockEntry, m);
+                        if i == 0 {
+                            self.note_first();
+                        }
                         self.block_value(x, m, true, false);
                         let val_empty = y.bare_null();
                         // the ':' may be omitted, except in front of an entry with an empty implicit key
@@ -634,6 +687,10 @@ pub struct Rendering {
     pub expect: Vec<E>,
     pub lines: Vec<(usize, LineKind, isize)>,
     pub levels: Vec<Vec<isize>>,
+    pub marks: Vec<Mark>,
+    pub first_lines: Vec<usize>,
+    /// the last document is terminated by a `...` line
+    pub last_doc_has_end_marker: bool,
 }
 
 /// Decorates and renders the abstract documents with the given choice source.
@@ -668,6 +725,10 @@ pub fn render(ts: &[T], ch: &mut Ch) -> Rendering {
             r.doc(t, i == 0);
         }
     }
-    let R { out, lines, levels, .. } = r;
-    Rendering { text: out, docs: dts, expect, lines, levels }
+    let R { out, lines, levels, marks, first_lines, .. } = r;
+    let last_doc_has_end_marker = {
+        // the last non-comment, non-blank line is a `...` line
+        out.lines().rev().find(|l| !l.trim().is_empty() && !l.trim_start().starts_with('#')).map_or(false, |l| l.starts_with("..."))
+    };
+    Rendering { text: out, docs: dts, expect, lines, levels, marks, first_lines, last_doc_has_end_marker }
 }
